@@ -114,7 +114,7 @@ func ParseContractFile(path, pkgPath string) ([]*Block, error) {
 		if ct == "" {
 			continue
 		}
-		if strings.HasPrefix(ct, "--") || strings.HasPrefix(ct, "import ") || strings.HasPrefix(ct, "heap ") || strings.HasPrefix(ct, "abstract type ") { // comments and directives
+		if strings.HasPrefix(ct, "--") || strings.HasPrefix(ct, "import ") || strings.HasPrefix(ct, "heap ") || strings.HasPrefix(ct, "abstract type ") || strings.HasPrefix(ct, "immutable ") || strings.HasPrefix(ct, "atomic-only ") { // comments and directives
 			continue
 		}
 		if kw := startsWithKW(ct, blockKW); kw != "" && !strings.HasPrefix(c, " ") && !strings.HasPrefix(c, "\t") {
@@ -177,7 +177,7 @@ func ParseContractFile(path, pkgPath string) ([]*Block, error) {
 		if cur == nil {
 			return nil, fmt.Errorf("%s:%d: clause outside block: %q", path, ln, ct)
 		}
-		if kw := startsWithKW(ct, clauseKW); kw != "" && !(kw == "forall" && strings.Contains(ct, "::")) {
+		if kw := startsWithKW(ct, clauseKW); kw != "" && !((kw == "forall") && strings.Contains(ct, "::")) {
 			rest := strings.TrimSpace(strings.TrimPrefix(ct, kw))
 			curClause = &Clause{Kind: kw, Text: rest, Line: ln}
 			switch kw {
@@ -399,7 +399,7 @@ func splitTop(s, sep string) []string {
 	return parts
 }
 
-var quantAllRe = regexp.MustCompile(`^forall\s+([A-Za-z_][A-Za-z0-9_]*)\s+([A-Za-z_][A-Za-z0-9_.]*)\s*::\s*(.*)$`)
+var quantAllRe = regexp.MustCompile(`^(forall|exists)\s+([A-Za-z_][A-Za-z0-9_]*)\s+([A-Za-z_][A-Za-z0-9_.]*)\s*::\s*(.*)$`)
 var quantRe = regexp.MustCompile(`^(forall|exists)\s+([A-Za-z_][A-Za-z0-9_]*)\s+(?:([A-Za-z_][A-Za-z0-9_.]*)\s+)?in\s+(.+?)\.\.(.+?)\s*::\s*(.*)$`)
 
 func RewriteSpecExpr(s string) (string, error) {
@@ -408,11 +408,14 @@ func RewriteSpecExpr(s string) (string, error) {
 		return "", fmt.Errorf("empty expression")
 	}
 	if m := quantAllRe.FindStringSubmatch(s); m != nil && !quantRe.MatchString(s) {
-		body, err := RewriteSpecExpr(m[3])
+		body, err := RewriteSpecExpr(m[4])
 		if err != nil {
 			return "", err
 		}
-		return fmt.Sprintf("forallAll(func(%s %s) bool { return %s })", m[1], m[2], body), nil
+		if m[1] == "exists" {
+			return fmt.Sprintf("!forallAll(func(%s %s) bool { return !(%s) })", m[2], m[3], body), nil
+		}
+		return fmt.Sprintf("forallAll(func(%s %s) bool { return %s })", m[2], m[3], body), nil
 	}
 	if m := quantRe.FindStringSubmatch(s); m != nil {
 		body, err := RewriteSpecExpr(m[6])
@@ -566,6 +569,9 @@ func existsRange[T specInteger](lo, hi T, f func(T) bool) bool {
 }
 
 func old[T any](x T) T { return x }
+
+// loopentry(e): the value of e when the enclosing loop was entered (verifier only).
+func loopentry[T any](x T) T { return x }
 
 // forallAll: unbounded universal quantification (verifier only; not executable).
 func forallAll[T any](f func(T) bool) bool { panic("forallAll is not executable") }
